@@ -144,6 +144,23 @@ class CallMixin(object):
     def call_eigen(self, m, name, arg_nodes, n, bm):
         a = lambda k: self.scalar(self.ev(arg_nodes[k]), n)
         targs = bm.targs if bm is not None else None
+        if getattr(m, 'is_veclist', False):
+            if name == 'reserve':
+                self.ev(arg_nodes[0])
+                return VOID
+            if name == 'push_back':
+                v = self.rd(self.ev(arg_nodes[0]))
+                if not (isinstance(v, Mat) and v.is_vector() and cint(v.vlen()) == m.C):
+                    fail(n, 'push_back of a non-vector')
+                for c in range(m.C):
+                    self.assign(m.lv(m.R, c), v.vat(c))
+                self.assign(m.rows_lv(), m.R + 1)
+                return VOID
+            if name == 'size':
+                return E.const(m.R)
+            if name == 'clear':
+                self.assign(m.rows_lv(), 0)
+                return VOID
         if name == 'row':
             i = a(0)
             if isinstance(m, StoreMat):
@@ -379,7 +396,9 @@ class CallMixin(object):
         hook = self.opt.get('floor')
         if hook:
             return hook(self, x, n)
-        fail(n, 'std::floor needs an int<->real model (option floor)')
+        if self.opt.get('i2r'):
+            return FloorV(to_real(x))
+        fail(n, 'std::floor needs an int<->real model (option i2r)')
 
     def upper_bound(self, vec, t, n):
         pos = self.new_scalar('ub', INT)
@@ -420,8 +439,13 @@ class CallMixin(object):
             return m
         if td.kind == 'obj':
             obj = self.make_obj(td, self.fresh('tmpo') + '__')
+            obj.is_temp = True
             self.run_ctor(obj, arg_nodes, n)
             return obj
+        if td.kind in ('stdvec', 'structvec', 'matvec', 'countvec', 'string') and not arg_nodes:
+            val = self.make_value(td, self.fresh('tmpv'))
+            self.init_empty(val)
+            return val
         if td.kind in ('real', 'int', 'bool') and len(arg_nodes) == 1:
             return self.to_type(self.ev(arg_nodes[0]), tstr, n)
         fail(n, 'construction of %s' % tstr)
@@ -745,6 +769,13 @@ class CallMixin(object):
         if isinstance(t, AbstractObj):
             return t.call(self, name, [self.ev(a) for a in arg_nodes], n)
         return self.call_method(t, name, arg_nodes, n, None)
+
+
+class FloorV(object):
+    """the double returned by std::floor(x), waiting to be converted to int"""
+
+    def __init__(self, x):
+        self.x = x
 
 
 class AbstractObj(object):
